@@ -963,36 +963,21 @@ func r03_8(c *RC) {
 		}
 		// a store das.unAckSeq = nextRecv.Load() from which output is reached,
 		// on the data/ack branch, and no way around that branch for a data/ack segment
-		var refresh *ssa.Store
-		instrs(clo, func(_ *ssa.BasicBlock, _ int, x ssa.Instruction) {
+		isRefreshStore := func(x ssa.Instruction) bool {
 			st, ok := x.(*ssa.Store)
 			if !ok {
-				return
+				return false
 			}
 			if f, _ := fieldOfAddr(st.Addr); !sameField(f, ua) {
-				return
+				return false
 			}
 			for _, l := range Leaves(st.Val, nil) {
 				if cl, ok := l.(*ssa.Call); ok && calleeName(cl) == "Load" && sameField(fieldOrigin(cl.Call.Args[0]), nr) {
-					refresh = st
+					return true
 				}
 			}
-		})
-		key := "retransmission-carries-current-ack"
-		if refresh == nil {
-			c.Bad(key, in.Pos(), "a retransmitted data segment goes out with the unAckSeq it had when first sent: the peer (or a datagram underlay answering for a swept session with unAckSeq+1) is told less than what was received, and a close request derived from it can pass the receiver's gap test after a strict prefix")
-			return
+			return false
 		}
-		// the refresh is guarded by "is a data/ack segment" only, and reaches the output
-		guarded := false
-		for _, e := range controllingEdges(refresh.Block()) {
-			atom, neg := condAtom(e.If.Cond)
-			if cl, ok := atom.(*ssa.Call); ok && calleeName(cl) == "isDataAckProtocol" && (e.Idx == 0) != neg {
-				guarded = true
-			}
-		}
-		reaches := reachableAvoiding(clo, refresh, func(x ssa.Instruction) bool { return x == in }, nil) != nil
-		// for a data/ack segment the output cannot be reached around the refresh
 		atomF := func(cond ssa.Value) (string, int, bool) {
 			v, neg := condAtom(cond)
 			if cl, ok := v.(*ssa.Call); ok && calleeName(cl) == "isDataAckProtocol" {
@@ -1004,13 +989,57 @@ func r03_8(c *RC) {
 			}
 			return "", 0, false
 		}
-		ex := &Explorer{Fn: clo, Atom: atomF, Assume: map[string]bool{"data-ack": true}, Avoid: func(x ssa.Instruction) bool { return x == ssa.Instruction(refresh) }}
+		var refresh ssa.Instruction
+		inHelper := false
+		instrs(clo, func(_ *ssa.BasicBlock, _ int, x ssa.Instruction) {
+			if isRefreshStore(x) {
+				refresh = x
+				return
+			}
+			// a bookkeeping helper that refreshes the ack of every data/ack
+			// segment it is given (prepareTransmission(seg))
+			if cl, ok := x.(*ssa.Call); ok && refresh == nil {
+				sc := cl.Common().StaticCallee()
+				if sc == nil || sc.Blocks == nil || pkgOfFn(sc) != pkgOfFn(clo) || sc.Object() == nil || sc.Object().Exported() || anchorNames[sc.Name()] {
+					return
+				}
+				has := false
+				instrs(sc, func(_ *ssa.BasicBlock, _ int, y ssa.Instruction) {
+					if isRefreshStore(y) {
+						has = true
+					}
+				})
+				if !has {
+					return
+				}
+				exH := &Explorer{Fn: sc, Atom: atomF, Assume: map[string]bool{"data-ack": true}, Avoid: isRefreshStore}
+				if exH.Reach(nil, isReturn) == nil && !exH.Over {
+					refresh, inHelper = x, true
+				}
+			}
+		})
+		key := "retransmission-carries-current-ack"
+		if refresh == nil {
+			c.Bad(key, in.Pos(), "a retransmitted data segment goes out with the unAckSeq it had when first sent: the peer (or a datagram underlay answering for a swept session with unAckSeq+1) is told less than what was received, and a close request derived from it can pass the receiver's gap test after a strict prefix")
+			return
+		}
+		// the refresh is guarded by "is a data/ack segment" only, and reaches the output
+		guarded := inHelper // a helper was already shown to refresh every data/ack segment
+		for _, e := range controllingEdges(refresh.Block()) {
+			atom, neg := condAtom(e.If.Cond)
+			if cl, ok := atom.(*ssa.Call); ok && calleeName(cl) == "isDataAckProtocol" && (e.Idx == 0) != neg {
+				guarded = true
+			}
+		}
+		reaches := reachableAvoiding(clo, refresh, func(x ssa.Instruction) bool { return x == in }, nil) != nil
+		// for a data/ack segment the output cannot be reached around the refresh
+		ex := &Explorer{Fn: clo, Atom: atomF, Assume: map[string]bool{"data-ack": true}, Avoid: func(x ssa.Instruction) bool { return x == refresh }}
 		around := ex.Reach(nil, func(x ssa.Instruction) bool { return x == in })
 		switch {
 		case ex.Over:
 			c.Undecided(key, in.Pos(), "exploration budget exceeded")
 		case guarded && reaches && around == nil:
-			c.OKH(key, refresh.Pos(), "das.unAckSeq = nextRecv.Load() on every path on which a data/ack segment is retransmitted")
+			c.OKH(key, refresh.Pos(), "das.unAckSeq = nextRecv.Load() on every path on which a data/ack segment is retransmitted%s", map[bool]string{true: " (in a bookkeeping helper called before output)", false: ""}[inHelper])
 		default:
 			c.Bad(key, in.Pos(), "a data/ack segment can be retransmitted without refreshing its unAckSeq from nextRecv (refresh on the data/ack branch=%v, reaches output=%v, output reachable around it=%v)", guarded, reaches, around != nil)
 		}
